@@ -39,6 +39,7 @@ TOOL_ID = 4
 _K = None                 # the live kernel (at most one per process at a time)
 _instrumented = {}        # code object -> 'line'
 _touch_codes = set()      # code objects that read/write process-global state
+_strong_codes = set()     # functions of the modules that own process-wide state (enumerated switch points)
 _tool_claimed = False
 
 
@@ -76,9 +77,26 @@ def _on_line(code, line):
     k.lines += 1
     t.lines += 1
     b = t.budget - 1
+    if k.sweep_at is not None and code in _strong_codes:
+        n = k.sweep_count
+        k.sweep_count = n + 1
+        if n == k.sweep_at:
+            # enumerated forced switch: pre-empt exactly here and let everybody else run through
+            t.hold_until = INF
+            k.deep_holds += 1
+            k.sweep_hit = (code.co_qualname, line)
+            t.budget = 0
+            t.last_pos = (code.co_qualname, line)
+            t.preempt()
+            return
     if k.touch_p and b > 2 and code in _touch_codes and k.touch_rng.random() < k.touch_p:
         b = k.touch_rng.randrange(0, 3)
         k.touch_cuts += 1
+        if k.touch_cuts in k.deep_hold_at:
+            # PCT-style priority change point: this thread stays off the CPU until every other
+            # thread has finished, blocked or been held too -- the others run *through* the window
+            t.hold_until = INF
+            k.deep_holds += 1
     t.budget = b
     if b <= 0 or k.lines >= k.max_lines:
         t.last_pos = (code.co_qualname, line)
@@ -157,6 +175,11 @@ def mark_touch(codes):
         _touch_codes.add(c)
 
 
+def mark_strong(codes):
+    for c in codes:
+        _strong_codes.add(c)
+
+
 def instrumented_count():
     return len(_instrumented)
 
@@ -184,6 +207,7 @@ class SimThread(threading.Thread):
         self.abort = False
         self.exc = None
         self.stall_us = 0
+        self.hold_until = 0
         self.last_pos = None
         self.block_what = None
 
@@ -255,6 +279,11 @@ class Kernel:
         self.touch_rng = sched_rng
         self.touch_p = touch_p if schedule is None else 0.0
         self.touch_cuts = 0
+        self.deep_hold_at = ()
+        self.deep_holds = 0
+        self.sweep_at = None          # index of the strong-touch line event at which to force a switch
+        self.sweep_count = 0
+        self.sweep_hit = None
         self.mean_budget = mean_budget
         self.recorded = []            # [[tid, lines_actually_run], ...]
         self.max_decisions = max_decisions
@@ -368,6 +397,13 @@ class Kernel:
         if self.stall_p and self.heap and self.heap[0][0] > self.now and \
                 self.stall_rng.random() < self.stall_p:
             return 'stall'
+        if (self.deep_hold_at or self.sweep_at is not None) and len(runnable) > 1:
+            free = [t for t in runnable if t.hold_until <= self.lines]
+            if free:
+                runnable = free
+            else:
+                for t in runnable:      # everybody is held: release them all
+                    t.hold_until = 0
         t = runnable[self.sched_rng.randrange(len(runnable))] if len(runnable) > 1 else runnable[0]
         return t, self._draw_budget()
 
